@@ -78,6 +78,10 @@ CLAIMED = {
   "operator/operand binding of the verification equation on SSA; accept-edge guards; result discipline on G1/G2.Unmarshal; accept-edge analysis of the curve decoders; cone purity (no process-local state) for Sign/VerifySig; right-alignment idiom check on big-integer byte copies",
   "Shape of BLS verification decided structurally: VerifySig returns true only as PairIsEuqal(Pair(sig, g2), Pair(H(msg), pub)) of its own arguments after the nil/validity guards; Sign computes H(msg)^sk; signature decoders consume both results of G1.Unmarshal; G1/G2.Unmarshal accept only full-length, on-curve (or infinity) encodings; nothing in the cone of Sign/VerifySig consults process-local mutable state; big-integer bytes are right-aligned in fixed-width buffers. Bilinearity, non-degeneracy, subgroup membership and soundness are algebraic and not decided (the baseline's curve tests sample them).",
   "Trusted: bn256 pairing arithmetic; go/ssa. The fix: commit 12a6f68 (exact-length signature decoding) repaired finding F15; R14.2 re-checks it on every run."),
+ "C16": ("3/C16",
+  "value-origin check that decode/ratio consumers take the padded proof; padding-side idiom check of both helpers; cone purity of prover and verifier; accept-edge analysis of ECVRFVerify and verifyBlockVRF; shape check of calQn",
+  "Structural necessary conditions decided: a proof is left-padded to 80 bytes (right-aligned copy, full-length proofs untouched) before it is decoded or its lottery output is read; prover and verifier cones contain no randomness, clock, cache or package-level mutable state; ECVRFVerify accepts only on equality of the recomputed challenge with the proof's c after a successful decode, with hashToCurve bound to its own message and key; qn = floor(ratio/step)+1 with the ratio clamped, qualification is `<`, verifyBlockVRF requires verified ∧ qualified ∧ TotalQN match. Uniqueness/soundness of the VRF and bit-flip rejection are cryptographic and not decided.",
+  "Trusted: edwards25519 arithmetic, SHA-512; go/ssa; VTA call graph."),
 }
 
 NOT_YET = {}
